@@ -108,21 +108,21 @@ def conc(name, workload, variant="release", runs=1500, shards=8, timeout=900, **
     return d
 
 
-def conc_legs(workload, tier, sanitizers=False):
+def conc_legs(workload, tier, sanitizers=False, scale=1.0):
     """Threaded stress: many short native runs with injected delays at the W1/W2 windows, tiny runs under
     Miri with different seeds / preemption rates, and (memory-class properties) ThreadSanitizer."""
     q = tier == "quick"
     out = [
-        conc(f"conc-{workload}", workload, runs=2500 if q else 60_000, shards=6 if q else 16, timeout=600 if q else 3000),
+        conc(f"conc-{workload}", workload, runs=2500 if q else int(60_000 * scale), shards=6 if q else 16, timeout=600 if q else 3000),
         conc(f"conc-{workload}-miri", workload, variant="miri", runs=4 if q else 12, shards=3 if q else 16, timeout=300 if q else 1500,
              miriflags="-Zmiri-preemption-rate=0.05", seed_offset=700),
     ]
     # debug assertions on: the crate's own consistency debug_assert!s become panics (= C01 violations)
-    out.append(conc(f"conc-{workload}-dbg", workload, variant="dbg", runs=1500 if q else 40_000, shards=4 if q else 8, timeout=600 if q else 3000, seed_offset=600))
+    out.append(conc(f"conc-{workload}-dbg", workload, variant="dbg", runs=1500 if q else int(40_000 * scale), shards=4 if q else 8, timeout=600 if q else 3000, seed_offset=600))
     if not q:
         out.append(conc(f"conc-{workload}-miri-p2", workload, variant="miri", runs=8, shards=8, timeout=1500, miriflags="-Zmiri-preemption-rate=0.2", seed_offset=900))
     if sanitizers:
-        out.append(conc(f"conc-{workload}-tsan", workload, variant="tsan", runs=600 if q else 20_000, shards=2 if q else 8, timeout=600 if q else 3000, seed_offset=800))
+        out.append(conc(f"conc-{workload}-tsan", workload, variant="tsan", runs=600 if q else int(20_000 * scale), shards=2 if q else 8, timeout=600 if q else 3000, seed_offset=800))
     return out
 
 
@@ -167,7 +167,7 @@ PLAN = {
     "C19": c19,
     "C20": c20,
     "C01": lambda tier: all_drivers(tier) + [l for d in ALL_DRIVERS for l in san_legs(d, tier)] + san_legs("mpmc-bval", tier)
-                        + [l for w in ALL_WORKLOADS for l in conc_legs(w, tier, sanitizers=True)]
+                        + [l for w in ALL_WORKLOADS for l in conc_legs(w, tier, sanitizers=True, scale=0.25)]
                         + ([{"kind": "coverage", "name": "coverage"}] if tier == "thorough" else []),
     "C02": lambda tier: driver_legs("mutex", tier) + conc_legs("mutex", tier, sanitizers=True),
     "C03": lambda tier: driver_legs("mutex", tier) + conc_legs("mutex", tier),
